@@ -13,7 +13,9 @@ META = dict(
          "connection, after which shutdown() on the server-side socket raises ENOTCONN / EBADF / EINVAL (plain OSError) or "
          "ECONNRESET / EPIPE (ConnectionError) - and closeAllIx, BFS depth 5 / 8 per errno. A third family adds connectbad(P) - an accept "
          "whose socket answers getpeername() with ENOTCONN or a mismatching address, possibly batched with other accepts; "
-         "serviceConnects may raise for it once, then it must be gone and the other peers must get their entries - depth 5 / 7. After every transition: no operation raised; per peer address at "
+         "serviceConnects may raise for it once, then it must be gone and the other peers must get their entries - depth 5 / 7. A fourth family adds "
+         "transmitIx(P) (unsent data queued on the entry) and peerbreak(P) (send() raises EPIPE / EBADF from then on): removeIx, "
+         "closeIx, closeAllIx - also removeIx after closeIx - must still close, drop the key and not raise - depth 5 / 7. After every transition: no operation raised; per peer address at "
          "most one table entry (.ixes and .cxes together) whose socket is neither shut down nor closed; the newest accepted, "
          "not removed connection of each address is the one in the table; a replaced stale connection is shut down or "
          "closed; no other socket was shut down or closed; removeIx leaves the socket closed and the key gone.",
@@ -35,6 +37,11 @@ FAULT_DEPTH = dict(quick=5, thorough=8)
 # OSError(ENOTCONN) (reset before the server got to it) or with another address than accept() reported, so
 # serviceAxes raises for it while other accepts may sit in the same batch; the caller keeps servicing
 ACCEPT_FAULTS = ("getpeername-ENOTCONN", "getpeername-mismatch")
+# configurations with transmitIx(P) (one byte queued on the entry, not yet serviced) and peerbreak(P): the peer
+# goes away and every later send() on the server-side socket raises this errno (Incomer.send re-raises both);
+# removing / closing such an entry must still close the socket and drop the key without raising
+SEND_FAULTS = ("send-EPIPE", "send-EBADF")
+SFAULT_DEPTH = dict(quick=5, thorough=7)
 AFAULT_DEPTH = dict(quick=5, thorough=7)
 
 FSM = None
@@ -85,7 +92,8 @@ class World:
     def __init__(self, subject, history, fault=None):
         self.subject = subject
         self.afault = fault if fault in ACCEPT_FAULTS else None
-        self.fault = None if self.afault else fault   # errno name raised by shutdown() after a peerreset, or None
+        self.sfault = fault if fault in SEND_FAULTS else None
+        self.fault = None if (self.afault or self.sfault) else fault   # errno raised by shutdown() after a peerreset
         self.policy = HsPolicy()
         self.fn = net.FakeNet(policy=self.policy)
         FSM.net = self.fn
@@ -154,6 +162,8 @@ class World:
                 evs.append(("peerclose", p))
                 if self.fault:
                     evs.append(("peerreset", p))
+                if self.sfault:
+                    evs.append(("peerbreak", p))
         if self.subject == "ServerTls":
             evs.append(("serviceConnects", "ok"))
             if self.srv.cxes or self.srv.ss.backlog:
@@ -166,7 +176,11 @@ class World:
                 evs.append(("removeIx", p))
                 if self.srv.ixes[p].cs is not None:
                     evs.append(("closeIx", p))
-        if self.fault and any(ix.cs is not None for ix in self.srv.ixes.values()):
+        if self.sfault:
+            for p in PEERS:
+                if p in self.srv.ixes and len(self.srv.ixes[p].txes) < 1:
+                    evs.append(("transmitIx", p))
+        if (self.fault or self.sfault) and any(ix.cs is not None for ix in self.srv.ixes.values()):
             evs.append(("closeAllIx",))
         return evs
 
@@ -201,6 +215,16 @@ class World:
                 conn.client.close()
                 conn.reset = True
                 conn.srv.stick("shutdown", net.ERR(getattr(errno, self.fault)))
+                return
+            if op == "peerbreak":
+                import errno
+                conn = self.live.pop(ev[1])
+                conn.client.close()
+                conn.reset = True
+                conn.srv.stick("send", net.ERR(getattr(errno, self.sfault.split("-")[1])))
+                return
+            if op == "transmitIx":
+                srv.transmitIx(b"x", ev[1])
                 return
             if op == "serviceConnects":
                 self.policy.pend = (ev[1] == "pend")
@@ -329,7 +353,8 @@ class World:
             for ca, inc in tbl.items():
                 conn = self.conn_of(inc)
                 referenced.setdefault(conn.idx, []).append(
-                    (tname, inc.cutoff, len(inc.rxbs), inc.cs is None, bool(getattr(inc, "connected", True))))
+                    (tname, inc.cutoff, len(inc.rxbs), inc.cs is None, bool(getattr(inc, "connected", True)),
+                     len(inc.txes)))
         per = []
         for p in PEERS:
             row = []
@@ -367,10 +392,12 @@ def report(p, subject, w, hist):
     ftag = " [after peerreset shutdown() raises %s]" % w.fault if w.fault else ""
     if w.afault:
         ftag = " [connectbad: %s]" % w.afault
+    if w.sfault:
+        ftag = " [after peerbreak send() raises %s]" % w.sfault.split("-")[1]
     p.violation("%s|%s" % (subject, kind), " ".join(show(e) for e in hist) + (" shutdown=%s" % w.fault if w.fault else "")
-                + (" %s" % w.afault if w.afault else ""),
+                + (" %s" % (w.afault or w.sfault) if (w.afault or w.sfault) else ""),
                 "%s after history [%s]%s: %s" % (subject, ", ".join(show(e) for e in hist), ftag, what),
-                dict(subject=subject, shutdown_fault=w.fault or w.afault, history=[[e[0]] + [list(x) if isinstance(x, tuple) else x for x in e[1:]] for e in hist],
+                dict(subject=subject, shutdown_fault=w.fault or w.afault or w.sfault, history=[[e[0]] + [list(x) if isinstance(x, tuple) else x for x in e[1:]] for e in hist],
                      what=what, double_log=w.fn.trace(30),
                      how="serving.%s(ha=('',%d)) over mc.net doubles; connect = raw client bound to the peer "
                          "address connects and sends one byte; peerclose = that client closes; peerreset = that client "
@@ -447,6 +474,7 @@ def run():
     cfgs = [("Server", depth, None), ("ServerTls", depth, None)]
     cfgs += [(sub, fdepth, f) for f in SHUTDOWN_FAULTS for sub in ("Server", "ServerTls")]
     cfgs += [(sub, AFAULT_DEPTH[core.TIER], f) for f in ACCEPT_FAULTS for sub in ("Server", "ServerTls")]
+    cfgs += [(sub, SFAULT_DEPTH[core.TIER], f) for f in SEND_FAULTS for sub in ("Server", "ServerTls")]
     ck.merge(core.pmap(explore, cfgs))
     ck.assumptions = [
         "a second connection from the same peer address can be made only after the previous client socket bound to that "
@@ -461,6 +489,9 @@ def run():
         "ValueError/OSError once; the caller keeps servicing; afterwards that accept must be gone (not queued, no entry "
         "required) and every other accepted peer must get its one live entry on the following passes without further "
         "exceptions",
+        "transmitIx / peerbreak family: data queued on an entry may be unsendable (send raises EPIPE / EBADF, or the entry was "
+        "closed with closeIx); removeIx / closeIx / closeAllIx must nevertheless close the socket, drop the key (removeIx) and "
+        "not raise; serviceTxesAllIx is not an event there because a non-loss send error propagating out of it is C25's rule",
         "closeIx leaves a closed entry in the table by design; serviceReceivesAllIx on such a table is outside the statement",
     ]
     ck.coverage_extra = dict(shutdown_faults=list(SHUTDOWN_FAULTS), fault_depth=fdepth, depth=depth, peers=[list(x) for x in PEERS], subjects=["Server", "ServerTls"],
@@ -470,8 +501,9 @@ def run():
              "removeIx(P), closeIx(P)} for P in 2 peer addresses up to depth %d, per subject {Server, ServerTls}; plus, per "
              "shutdown errno in {ENOTCONN, EBADF, EINVAL, ECONNRESET, EPIPE}, the same with the extra events peerreset(P) and "
              "closeAllIx up to depth %d; plus, per accept fault in {getpeername ENOTCONN, getpeername address mismatch}, the "
-             "base events and connectbad(P) up to depth %d; states merged by canonical form; a state that violates an "
-             "invariant is not expanded" % (depth, fdepth, AFAULT_DEPTH[core.TIER]),
+             "base events and connectbad(P) up to depth %d; plus, per send fault in {EPIPE, EBADF}, the base events, "
+             "transmitIx(P), peerbreak(P) and closeAllIx up to depth %d; states merged by canonical form; a state that violates an "
+             "invariant is not expanded" % (depth, fdepth, AFAULT_DEPTH[core.TIER], SFAULT_DEPTH[core.TIER]),
         exhaustive=False,
         explanation="depth-bounded: exhaustive over all histories up to the stated depth, not a fixpoint "
                     "(leaked stale sockets make the state space unbounded)")
